@@ -39,6 +39,11 @@ def build_cases(tier):
         for plug in (False, True):
             cases.append(dict(family="literal", schema=corpus2.SCHEMA_L, doc_text=doc, ops=[{"name": name, "kwargs": {}}], tags=set(tags) | ({"extract_plugin"} if plug else set()),
                               options={"plugins": [EXTRACT]} if plug else {}))
+        # the four base clients (and the traced paths of the OpenTelemetry ones) hand the string to the transport separately
+        if "literal_pair" not in tags and "place:arg" in tags:
+            for cfg, tr in (({"async_client": False}, "none"), ({"async_client": False, "opentelemetry_client": True}, "stub"), ({"opentelemetry_client": True}, "stub")):
+                cases.append(dict(family="literal", schema=corpus2.SCHEMA_L, doc_text=doc, ops=[{"name": name, "kwargs": {}}], tags=set(tags) | {f"cfg:{k}" for k in cfg} | ({f"tracer:{tr}"} if tr != "none" else set()),
+                                  options=dict(cfg), tracer=tr))
     MIX = "class MixinA:\n    pass\n\n\nclass MixinB:\n    pass\n"
     mixin_ops = {
         "mixin_on_field": 'query MixF { user @mixin(from: ".mixins", import: "MixinA") { id friend @mixin(from: ".mixins", import: "MixinB") { id } } }\n',
@@ -146,8 +151,8 @@ def main(tier):
         for opn, clause, detail in r["problems"]:
             rep.violation(clause, F(), detail, dict(desc, operation=opn, sent=(r["ops"].get(opn) or {}).get("query")))
         key = (c["doc_text"], c["family"])
-        if c["family"] in ("literal", "fragment_graph", "mixin"):
-            by_doc.setdefault(key, {})[bool(c["options"])] = (c, r)
+        if c["family"] in ("literal", "fragment_graph", "mixin") and set(c["options"]) <= {"plugins", "files_to_include"}:
+            by_doc.setdefault(key, {})[bool(c["options"].get("plugins"))] = (c, r)
         if len(rep.samples) < 5 and c["family"] != "grammar" and r["ops"]:
             rep.sample({"family": c["family"], "authored": c["doc_text"], "sent": next(iter(r["ops"].values()))["query"], "plugins": c["options"].get("plugins", [])})
     # ExtractOperations: plugged client must send the same document as the unplugged one, and the constants of
